@@ -59,6 +59,40 @@ STRENGTHENED = {
     "C19_r3_m1": "real keep-alive idle scenario",
     "C19_r3_m2": "files shorter than the announced Content-Length",
     "C20_r3_m1": "user / group through GUNICORN_CMD_ARGS and the workers of a USR2-started master",
+    # round 4 (adversarial prompt)
+    "C01_r4_m1": "framing-neutral header spellings with a history (Sec-WebSocket-Key1, hop-by-hop, look-alikes of the framing fields)",
+    "C02_r4_m1": "responses that take longer than the keep-alive time, on real servers",
+    "C02_r4_m2": "large responses on a reused connection to a client that reads late; scripted sockets honour the blocking mode",
+    "C03_r4_m1": "wait statuses with the core-dump bit, real-time signals, exit code 255 in the simulated kernel's schedules",
+    "C04_r4_m1": "requests that finish inside the graceful timeout but later than --timeout (appfin late)",
+    "C04_r4_m2": "decided through C14: clause PidFileLeftBehind, histories that stop both masters",
+    "C05_r4_m1": "IPv6 4-tuples, unnamed and bound unix peers in C05",
+    "C06_r4_m1": "segmentation independence under non-default limit settings (0 / small)",
+    "C06_r4_m2": "scripted sockets honour the blocking mode: EAGAIN between segments on a socket left non-blocking",
+    "C07_r4_m1": "second request of a kept-alive connection with a late body tail (worker level)",
+    "C07_r4_m2": "TLS-like sources with pending(); 20 kB bodies in the quick tier",
+    "C08_r4_m2": "dimension pline2 (PROXY line in front of a later request); deviation LatePlineAccepted",
+    "C09_r4_m2": "Content-Length values: digits with CR / LF / NUL / control bytes around them",
+    "C10_r4_m1": "reload after a setting was removed from the file (default expected)",
+    "C11_r4_m1": "timeouts of 8 / 20 / 30 s on the simulated kernel, hang after the first heartbeat",
+    "C11_r4_m2": "scenario healthy_idle_keepalive: keep-alive time beyond --timeout",
+    "C12_r4_m1": "limit_request_fields = 0 / out of range with heads in several reads",
+    "C12_r4_m2": "strip_header_spaces with fields that are long through blanks before the colon",
+    "C13_r4_m1": "environment step steal: another worker wins the accept race (EAGAIN)",
+    "C13_r4_m2": "the simulated lock is re-entrant or not as the worker's own init_process makes it",
+    "C14_r4_m1": "upgrade histories with --timeout 0",
+    "C14_r4_m2": "(the old master stays a zombie of the driver) clause PidFileLeftBehind / MasterDiedUnasked",
+    "C15_r4_m1": "field names servers treat specially (Proxy, X-Forwarded-*, hop-by-hop ...)",
+    "C15_r4_m2": "peers that are not permitted forwarders",
+    "C16_r4_m1": "invalid values of unexpected types (AttributeError in the validator); upper-case look-alike globals in files",
+    "C16_r4_m2": "real servers: merged value vs. the value master and workers use (ConfigRunTrace)",
+    "C17_r4_m1": "kernel-level crash points (strace fault injection), pid directory on another file system",
+    "C17_r4_m2": "foreign pids that extend the digits of an instance's pid",
+    "C18_r4_m1": "real mode twolisten; the driver's start-up probe counted",
+    "C18_r4_m2": "real mode ka0 (keep-alive 0)",
+    "C19_r4_m1": "real eventlet: large file to a client that reads late (partial sends)",
+    "C19_r4_m2": "real servers with --log-level warning / error",
+    "C20_r4_m2": "Privs.tla capability dimension (uid-0 refused a privilege call), deviation SwallowEperm",
 }
 
 
